@@ -60,7 +60,7 @@ def parse_boards(text):
     return out
 
 
-def run_session(binary, inputs, timeout=20):
+def run_session(binary, inputs, timeout=90):
     """feed the lines one by one, reading the board the program prints after each"""
     p = subprocess.Popen([binary, "pvp"], stdin=subprocess.PIPE, stdout=subprocess.PIPE, stderr=subprocess.STDOUT, text=True, bufsize=1)
     buf = ""
